@@ -128,7 +128,8 @@ def run_property(prop, tier, repo, replay=None):
             if o.verdict != NOTE:
                 counts[o.rule] = counts.get(o.rule, 0) + 1
         # floors guard against a vacuous pass; a rule that has reported a violation may legitimately skip the obligations that build on the broken fact
-        violated_rules = {o.rule for o in ctx.obs if o.verdict == VIOLATED}
+        # ... and a rule with an undecided obligation already makes the run fail (exit 2, or exit 1 when another rule found a violation)
+        violated_rules = {o.rule for o in ctx.obs if o.verdict in (VIOLATED, UNDECIDED)}
         for rid, n in floors.items():
             if rid in violated_rules:
                 continue
